@@ -4,6 +4,7 @@ Line-protocol driver for M-Schema (SCHEMA_PROTOCOL.md). Core-only (lean_exe sche
 import ThriftVerif.Schema.Text
 import ThriftVerif.Schema.WireEq
 import ThriftVerif.Schema.GoType
+import ThriftVerif.Gen.Naming
 
 open ThriftVerif.Wire ThriftVerif.Schema
 
@@ -121,6 +122,8 @@ def step (env : Env) (line : String) : Env × String :=
     match parseTG rest with
     | some (t, g, []) => (env, " ".intercalate ("ok" :: sortStrings (visible env true fuel t g).eraseDups))
     | _ => (env, "bad-op")
+  | ["gocase", ident] => (env, "ok " ++ String.ofList (ThriftVerif.Gen.goCase ident.toList))
+  | ["constname", ident] => (env, "ok " ++ String.ofList (ThriftVerif.Gen.constantName ident.toList))
   | "gotype" :: rest =>
     match parseTy (rest.length + 2) rest with
     | some (t, [req]) => (env, "ok " ++ formatType (buildType t (req == "1")))
